@@ -16,7 +16,7 @@ _reg('foot', ['F1'])
 _reg('frame', ['J3', 'J4', 'J5'])
 _reg('portable', ['P1', 'P3', 'P4'])
 _reg('a64', ['N0', 'N1', 'N5'])
-_reg('a64frame', ['N3', 'N6'])
+_reg('a64frame', ['N3', 'N6', 'N4'])
 _reg('rv64', ['V0', 'V1', 'V5'])
 _reg('rv64frame', ['V3', 'V6'])
 
@@ -42,9 +42,9 @@ PROPS = {
    technique='symbolic execution of the emitter (clang LLVM IR, own interpreter), execution of the emitted RV64GC code under an RV64 semantics written for this task (engine/rv64sem.py), SMT (z3) equivalence with the specification step per obligation; lemmas: V0,V3,V5,V6,V1',
    files=['src/jit_compiler_rv64.cpp', 'src/jit_compiler_rv64.hpp', 'src/jit_compiler_rv64_static.S', 'src/jit_compiler_rv64_static.hpp', 'src/jit_compiler.hpp', 'doc/specs.md'],
    explanation='TODO', trusted=['RV64GC semantics of engine/rv64sem.py (ISA manual transcription for the ~60 forms used; decoding cross-checked against LLVM, semantics not validated on hardware)', 'doc/specs.md chapter 5 transcription'], outside=[]),
- 'C19': dict(level='translation_validation', lemmas=['N0', 'N3', 'N5', 'N6', 'N1'],
-   claim='PARTIAL: per-instruction translation validation of the ARM64 emitters (JitCompilerA64::h_*, emitMovImmediate, emitAddImmediate, emitMemLoad, emitMemLoadFP) against the specification step, validation of the generated dataset-item function (generateSuperscalarHash + runtime templates) against specification 7.3, and of the hand-written main loop as generateProgram patches it (full and light mode, v1 and v2 with hardware AES) against specification 4.6, under an A64 model whose decoder is cross-checked against LLVM and whose semantics are an unvalidated transcription of the Arm ARM; the software-AES variant of the loop is outside the claim. Bounds are listed in the evidence.',
-   technique='symbolic execution of the emitter (clang LLVM IR, own interpreter), execution of the emitted A64 words under an A64 semantics written for this task (engine/a64sem.py), SMT (z3) equivalence with the specification step per obligation; lemmas: N0,N3,N5,N6,N1',
+ 'C19': dict(level='translation_validation', lemmas=['N0', 'N3', 'N4', 'N5', 'N6', 'N1'],
+   claim='PARTIAL: per-instruction translation validation of the ARM64 emitters (JitCompilerA64::h_*, emitMovImmediate, emitAddImmediate, emitMemLoad, emitMemLoadFP) against the specification step, validation of the generated dataset-item function (generateSuperscalarHash + runtime templates) against specification 7.3, and of the hand-written main loop as generateProgram patches it (full and light mode, v1 and v2 with hardware or software AES) against specification 4.6, under an A64 model whose decoder is cross-checked against LLVM and whose semantics are an unvalidated transcription of the Arm ARM; code-buffer capacity is outside the claim. Bounds are listed in the evidence.',
+   technique='symbolic execution of the emitter (clang LLVM IR, own interpreter), execution of the emitted A64 words under an A64 semantics written for this task (engine/a64sem.py), SMT (z3) equivalence with the specification step per obligation; lemmas: N0,N3,N4,N5,N6,N1',
    files=['src/jit_compiler_a64.cpp', 'src/jit_compiler_a64.hpp', 'src/jit_compiler_a64_static.S', 'src/jit_compiler_a64_static.hpp', 'doc/specs.md'],
    explanation='TODO', trusted=['A64 semantics of engine/a64sem.py (Arm ARM transcription for the ~45 forms used; decoding cross-checked against LLVM, semantics not validated on hardware)', 'doc/specs.md chapter 5 transcription'], outside=[]),
  'C18': dict(level='other', lemmas=['R1', 'R2', 'R3'],
